@@ -103,13 +103,17 @@ def build_file(blocks, style="hash", eol="\n", prefix="b"):
 
 
 def run_batch(ctx, blocks, style, code, model, eol="\n", flavour="rel", check_positions=True, extra_env=None,
-              sig_prefix="", nontrivial_fn=None, key_fn=None, sets_fn=None, prefix="b", ignore_codes=()):
+              sig_prefix="", nontrivial_fn=None, key_fn=None, sets_fn=None, prefix="b", ignore_codes=(), bom=False):
     """Run one batch and judge every block.
 
     model(block) -> None | dict(line_idx, key, c1, c2) for range validators, or dict(data=...) for
     line-count. Returns a list of Cases (one per block; violations carry a one-block witness)."""
     fname = "batch.py" if style == "hash" else "batch.js"
     text = build_file(blocks, style, eol, prefix)
+    if bom and blocks:
+        # UTF-8 byte order mark: three bytes that belong to line 1 (byte columns there move by 3) and to nothing else
+        text = "\ufeff" + text
+        blocks[0].first_offset += 3
     root = run.make_repo({fname: text})
     env = {"BLOCKWATCH_TERMINAL_MODE": "1"}
     if extra_env:
@@ -189,7 +193,7 @@ def run_batch(ctx, blocks, style, code, model, eol="\n", flavour="rel", check_po
             b.first_offset = b.first_offset
             cases.append(Case(VIOLATED, key=key, nontrivial=nontriv, sig="%s/%s" % (sig_prefix, problem[0]),
                               summary="block %s: %s; attrs=%s lines=%r" % (b.name, problem[1], b.attrs, b.lines[:12]),
-                              witness={"attrs": b.attrs, "lines": b.lines, "inline_first": b.inline_first,
+                              witness={"attrs": b.attrs, "lines": b.lines, "inline_first": b.inline_first, "file_starts_with_bom": bom,
                                        "single_block_file": one, "expected": exp, "got": got, "desc": b.desc},
                               evals=0, sets=sets))
         else:
